@@ -51,6 +51,22 @@ var c14Progs = []detProg{
     println(o);
 }
 `}},
+	{Name: "object-keys-that-collide-under-weak-orders", Tree: true, Mods: map[string]string{"main": `fn main() {
+    let o = new { id: 1, ID: 2, Id: 3, name: "n" };
+    println(o);
+    let p = new { ab: 1, ba: 2, a: 3, abc: 4, b: 5 };
+    println(p);
+    println(p.to_json());
+    let q = new { ? };
+    q.set("key", 1);
+    q.set("KEY", 2);
+    q.set("Key", 3);
+    q.set("k", 4);
+    println(q);
+    println(q.keys());
+    println(q.to_json());
+}
+`}},
 	{Name: "three-modules-overlapping-names", Mods: map[string]string{
 		"main": `import { helper } from a;
 import { other } from b;
